@@ -132,8 +132,6 @@ ASSUMPTIONS = [
     "4 ulp tolerance for float results of the two twins (different association order / sqrt vs pow / hypot)",
 ]
 OPEN = [
-    "twin_v2bool is false on the unchanged tree (bool(Vec2) uses a tolerance in Python only): v2bool_twins_differ + twin_v2bool_partial",
-    "twin_rayRay is false on the unchanged tree (intersection_ray_ray_3d relative tolerance): rayRay_twins_differ + twin_rayRay_partial",
     "B-spline Basis/Evaluator, earcut, linetype renderer, np_support LU: loops outside the translator subset, differential only",
 ]
 
@@ -1168,7 +1166,9 @@ def diff_linetypes(d: Diff, n: int):
                 out.append([(a, b) for a, b in ltr.line_segment(s, e)])
             return (ltr.is_solid, out)
 
-        d.call("_LineTypeRenderer.line_segment", [R(dashes), R(segs)], run, ulp=64)
+        # patterns with zero-length dashes (dots) and without are keyed separately
+        sub = "dots" if any(x == 0.0 for x in dashes[0::2]) else "plain"
+        d.call(f"_LineTypeRenderer.line_segment/{sub}", [R(dashes), R(segs)], run, ulp=64, cover="_LineTypeRenderer.line_segment")
     d.covered |= {"_LineTypeRenderer.is_solid"}
 
 
